@@ -1,5 +1,6 @@
 import Driver.Util
 import NutsModel.C08.State
+import NutsModel.C08.Codec
 import NutsModel.Facts.C08
 open Lean Nuts.Drv Nuts.C08 Nuts
 
@@ -97,7 +98,76 @@ def obsTree {R G : Type} (o : Ops R G) (dg : G → String) (t : Tree G) (j : Jso
 def putAll {G : Type} (t : Tree G) (shelf : List (Nat × G)) : List (Nat × G) :=
   t.updates.foldl (fun s kv => putSorted kv.1 kv.2 s) shelf
 
+/-! ### byte layer (Codec) -/
+open Nuts.C08.Codec in
+def hexBytes (s : String) : Codec.Bytes :=
+  let rec go : List Char → Codec.Bytes
+    | a :: b :: rest => UInt8.ofNat (hexVal (String.ofList [a, b])) :: go rest
+    | _ => []
+  go s.toList
+
+def bytesHex (b : Codec.Bytes) : String :=
+  String.ofList (b.flatMap fun x => [hexDigit (x.toNat / 16), hexDigit (x.toNat % 16)])
+
+def bucketsStr (l : List Bucket) : String :=
+  " ".intercalate (l.map fun b => s!"{b.count.toNat}:{b.hashSum.toNat}:{full b.keySum}")
+
+def bytesDigest (b : Codec.Bytes) : Nat := b.foldl (fun h x => mix h x.toNat) b.length
+
+def insLex (x : Codec.Bytes × Codec.Bytes) : List (Codec.Bytes × Codec.Bytes) → List (Codec.Bytes × Codec.Bytes)
+  | [] => [x]
+  | y :: r => if Codec.lexLt x.1 y.1 then x :: y :: r else y :: insLex x r
+def sortLex (l : List (Codec.Bytes × Codec.Bytes)) : List (Codec.Bytes × Codec.Bytes) := l.foldr insLex []
+
+def resNat : Res Nat → String
+  | .ok n => toString n | .err e => "err:" ++ e | .panic _ => "short"
+
+def parseKv (j : Json) : List (Nat × Codec.Bytes) :=
+  (jArr j "kv").foldl (fun l e => putSorted (jNat e "k") (hexBytes (jStr e "b")) l) []
+
+def codecStep (st : St) (j : Json) : Option String :=
+  let b := hexBytes (jStr j "b")
+  match jStr j "op" with
+  | "tcx" => some (match Codec.xorUnmarshal b with
+      | .ok x => "tcx ok:" ++ bytesHex (Codec.xorMarshal x) | .err e => "tcx err:" ++ e | .panic s => "tcx panic:" ++ s)
+  | "tci" => some (match Codec.ibltUnmarshal b with
+      | .ok l => s!"tci ok:nb={l.length} [{bucketsStr l}] m={bytesHex (Codec.ibltMarshal l)}"
+      | .err e => "tci err:" ++ e | .panic s => "tci panic:" ++ s)
+  | "tcm" =>
+    let l : List Bucket := (jArr j "bk").map fun e =>
+      ⟨BitVec.ofNat 32 (jNat e "c"), BitVec.ofNat 64 (jNat e "h"), BitVec.ofNat 256 (hexVal (jStr e "k"))⟩
+    some ("tcm " ++ bytesHex (Codec.ibltMarshal l))
+  | "tca" => some (match Codec.ibltUnmarshal b with
+      | .ok l1 => (match Codec.ibltUnmarshal (hexBytes (jStr j "b2")) with
+        | .ok l2 => (match Codec.ibltAddDyn l1 l2 with
+          | .ok l => s!"tca ok:[{bucketsStr l}]" | .err e => "tca err:" ++ e | .panic s => "tca panic:" ++ s)
+        | .err e => "tca err2:" ++ e | .panic s => "tca panic:" ++ s)
+      | .err e => "tca err1:" ++ e | .panic s => "tca panic:" ++ s)
+  -- dag level
+  | "ckey" =>
+    let c := jNat j "clock"
+    some s!"ckey le={bytesHex (Codec.clockToKey c)} be={bytesHex (Codec.uint32Key c)} rt={resNat (Codec.keyToClock (Codec.clockToKey c))},{resNat (Codec.bytesToClock (Codec.uint32Key c))}"
+  | "kclk" =>
+    let v := hexBytes (jStr j "val")
+    some s!"kclk le={resNat (Codec.keyToClock v)} be={resNat (Codec.bytesToClock v)} cnt={resNat (Codec.bytesToCount v)}"
+  | "phl" =>
+    let v := hexBytes (jStr j "val")
+    let l := Codec.parseHashList v
+    some s!"phl n={l.length} [{",".intercalate (l.map full)}] app={bytesHex (Codec.appendHashList v (parseRef j "ref"))}"
+  | "raw" =>
+    let d := st.s.disk
+    let clk : String := match getSorted (jNat j "clock") d.clocks with
+      | some refs => bytesHex (Codec.encodeHashList refs) | none => "-"
+    let xs := sortLex (Codec.encodeXorShelf d.xorLeaves)
+    let is := sortLex (Codec.encodeIbltShelf d.ibltLeaves)
+    let mt := if d.count == 0 then "-" else s!"{bytesHex (Codec.uint32Key d.lcHigh)}/{bytesHex (Codec.countBytes d.count)}"
+    some s!"raw clk={clk} meta={mt} x=[{",".intercalate (xs.map fun kv => bytesHex kv.1 ++ "=" ++ bytesHex kv.2)}] i=[{",".intercalate (is.map fun kv => bytesHex kv.1 ++ "=" ++ toString (bytesDigest kv.2))}]"
+  | _ => none
+
 def step (st : St) (j : Json) : St × List String :=
+  match codecStep st j with
+  | some line => (st, [line])
+  | none =>
   match jStr j "op" with
   -- ---------------- state level
   | "new" => let st := { st with s := State.init cfg }; (st, ["new | " ++ observe st.s j])
@@ -155,6 +225,9 @@ def step (st : St) (j : Json) : St × List String :=
       | "tobs" => fin st "tobs"
       | "tpersist" => fin { st with shelfI := putAll st.ti st.shelfI, ti := st.ti.resetUpdates } "tpersist"
       | "tload" => fin { st with ti := Tree.load o cfg.loadEmptyResets (Tree.new o (jNat j "ls")) st.shelfI } "tload"
+      | "tlb" =>
+        let r := Codec.loadIbltBytes st.tn cfg.loadEmptyResets st.ti (parseKv j)
+        fin { st with ti := r.1 } ("tlb " ++ resStr r.2)
       | "trepl" =>
         let d := (jArr j "refs").foldl (fun g r => o.ins g (parseIKey r)) o.zero
         fin { st with ti := st.ti.replace o (jNat j "clock") d } "trepl"
@@ -168,6 +241,9 @@ def step (st : St) (j : Json) : St × List String :=
       | "tobs" => fin st "tobs"
       | "tpersist" => fin { st with shelfX := putAll st.tx st.shelfX, tx := st.tx.resetUpdates } "tpersist"
       | "tload" => fin { st with tx := Tree.load o cfg.loadEmptyResets (Tree.new o (jNat j "ls")) st.shelfX } "tload"
+      | "tlb" =>
+        let r := Codec.loadXorBytes cfg.loadEmptyResets st.tx (parseKv j)
+        fin { st with tx := r.1 } ("tlb " ++ resStr r.2)
       | "trepl" =>
         let d := (jArr j "refs").foldl (fun g r => o.ins g (parseRef r "ref")) o.zero
         fin { st with tx := st.tx.replace o (jNat j "clock") d } "trepl"
